@@ -49,11 +49,11 @@ def corrupt_download(cases):
     c = copy.deepcopy(hon[0])
     c[-1]["imported"] = c[-1]["imported"][:-1]
     out.append(("imported-block-dropped", c))
-    c = copy.deepcopy(hon[0])
+    multi = [c for c in hon if sum(1 for e in c if e["e"] == "Fetch") > 2]
+    c = copy.deepcopy(multi[0])
     fi = [i for i, e in enumerate(c) if e["e"] == "Fetch"]
-    if len(fi) > 2:
-        del c[fi[1]]
-        out.append(("fetch-deleted", c))
+    del c[fi[1]]                                       # a round trip of the fetcher is missing from the record
+    out.append(("fetch-deleted", c))
     bad = [c for c in cases if c[0]["e"] == "BStart" and "/dup@" in c[0]["case"]]
     c = copy.deepcopy(bad[0])
     c[-1]["status"] = "ok"
@@ -287,6 +287,32 @@ def run(ctx):
         ctx.cov["traces_validated_against_impl"] += acc
         ctx.sample({"sync_pair": pairs[0]})
 
+    # ---- 3c. finality / quality variants (PoA with finality; thorough: PoS as well) ------------------------------
+    n_bft = 0
+    for mode in (["bft"] if q else ["bft", "pos"]):
+        args = ["-mode", mode] + ([] if q else ["-deep"])
+        events, st = sc.run_driver(ctx, "syncsim", args, mode, timeout=900)
+        if events is None:
+            continue
+        acc, d = sc.validate(ctx, events, mode, {"driver": "syncsim", "args": args, "seed": ctx.seed})
+        drifts += d
+        res = st["bft"]
+        n_bft += len(res)
+        ctx.cov["traces_validated_against_impl"] += acc
+        ctx.cov.setdefault("finality_variants", {})[mode] = {
+            "cases": [r["label"] + "/" + r["via"] for r in res],
+            "refused_by_finality": sum(1 for r in res if r["status"] == "bft"),
+            "main_chain_finalized_height": st["mainChainFinalized"]}
+        for r in res:
+            if r["via"] == "sync" and r["refFollowsRemote"] and not r["converged"] and not r["remoteHasHigherScore"]:
+                ctx.cov.setdefault("observations", []).append(
+                    "%s/%s: the node's fork choice (bft.Select: quality first) prefers the peer's chain, a direct download converges, but "
+                    "Communicator.Sync never selects the peer because its announced total score is lower (peer selection is by score only; "
+                    "design limit of C19, not reported as a violation)" % (mode, r["label"]))
+        to = [r["label"] for r in res if r["timeout"]]
+        if to:
+            late_infra.append("finality variants hit the absolute cap of the harness: %s" % to)
+
     # ---- 4. (C) every message code ------------------------------------------------------------------------------
     args = ["-mode", "msg", "-rand", "40" if q else "600"]
     events, st = sc.run_driver(ctx, "syncsim", args, "messages")
@@ -320,7 +346,7 @@ def run(ctx):
     # ---- 5. growth: block / tx propagation between peers -----------------------------------------------------
     n_gossip = gossip_step(ctx, drifts)
 
-    ctx.cov["evaluations"] = n_anc + n_dl + n_sync + n_msg + n_gossip
+    ctx.cov["evaluations"] = n_anc + n_dl + n_sync + n_msg + n_gossip + n_bft
     ctx.cov["distinct_nontrivial"] = (ctx.cov.get("ancestor_distinct_probe_sequences", 0) + n_dl_fault +
                                       ctx.cov.get("sync_pairs_converged", 0))
     ctx.cov["rule"] = ("evaluation = one run of real code: one findCommonAncestor instance (H,A,R), one download of a fresh node, "
@@ -331,10 +357,12 @@ def run(ctx):
                              "all R; (B)/(C) exhaustive inside MC_SyncB/C bounds, sampled on the real code" % (maxh, 16 if q else 40))
     ctx.assumptions += [
         "hashes/signatures are injective oracles; block ids, total scores and the id order are logged facts",
-        "fork choice in the explored scenarios is (total score, id): validator 2 never signs, so no epoch is justified and finality plays no part",
+        "fork choice in the modelled scenarios is (total score, id): validator 2 never signs, so no epoch is justified; finality / quality (bft.Accepts, bft.Select, PoA and PoS) are covered on the real code against a reference node only, not in Sync.tla",
         "peer selection is exercised with strictly better and exactly tying announced scores (both id orders); with several peers the choice among them is not under test; the in-process pipe delivers whole messages in order (devp2p framing is not under test)",
         "hostile peers are scripted at the rpc layer: one fault per download, 14 fault kinds x stream positions x batch sizes; random payloads are seeded samples",
     ]
+    if ctx.cov.get("binding_demo_skipped") and not ctx.violations:
+        raise Infra("binding demonstration could not be built although nothing was reported: %s" % ctx.cov["binding_demo_skipped"])
     if late_infra and not ctx.violations:
         raise Infra(" | ".join(late_infra))
     if drifts and not ctx.violations:
